@@ -283,22 +283,23 @@ package py
 //@ spec isList(x Object) bool = is(x, *List)
 
 // list.append (first function literal of py/list.go)
+// No precondition on self: a method of a type can be reached through the type itself (list.append(l, 3)), where the
+// Method object passes its (nil) module as self - the unchecked self.(*List) then aborts the process (known finding,
+// region !is(self, *List)).
 //@ func @list.go:1(self, args) (r, err)
-//@   requires self: is(self, *List)
 //@   modifies self.(*List).Items, mem(self.(*List).Items)
-//@   ensures arity: len(args) != 1 ==> raisesExc(err, TypeError) && self.(*List).Items == old(self.(*List).Items)
-//@   ensures len: len(args) == 1 ==> err == nil && len(self.(*List).Items) == len(old(self.(*List).Items)) + 1
-//@   ensures kept: len(args) == 1 ==> forall k in [0, len(old(self.(*List).Items))): self.(*List).Items[k] == old(self.(*List).Items[k])
-//@   ensures last: len(args) == 1 ==> self.(*List).Items[len(old(self.(*List).Items))] == old(args[0])
+//@   ensures arity: is(self, *List) && len(args) != 1 ==> raisesExc(err, TypeError) && self.(*List).Items == old(self.(*List).Items)
+//@   ensures len: is(self, *List) && len(args) == 1 ==> err == nil && len(self.(*List).Items) == len(old(self.(*List).Items)) + 1
+//@   ensures kept: is(self, *List) && len(args) == 1 ==> forall k in [0, len(old(self.(*List).Items))): self.(*List).Items[k] == old(self.(*List).Items[k])
+//@   ensures last: is(self, *List) && len(args) == 1 ==> self.(*List).Items[len(old(self.(*List).Items))] == old(args[0])
 
 // list.extend (second function literal of py/list.go): every iterable must be accepted
 //@ func @list.go:2(self, args) (r, err)
-//@   requires self: is(self, *List)
 //@   requires argsnn: forall k in [0, len(args)): args[k] != nil
 //@   modifies *
-//@   ensures listarg: len(args) == 1 && is(old(args[0]), *List) && old(args[0]).(*List) != self.(*List) ==> err == nil && len(self.(*List).Items) == len(old(self.(*List).Items)) + len(old(args[0].(*List).Items))
-//@   ensures iterated: len(args) == 1 && !is(old(args[0]), *List) ==> opcnt[48] == 1
-//@   ensures tuplearg: len(args) == 1 && is(old(args[0]), Tuple) ==> err == nil
+//@   ensures listarg: is(self, *List) && len(args) == 1 && is(old(args[0]), *List) && old(args[0]).(*List) != self.(*List) ==> err == nil && len(self.(*List).Items) == len(old(self.(*List).Items)) + len(old(args[0].(*List).Items))
+//@   ensures iterated: is(self, *List) && len(args) == 1 && !is(old(args[0]), *List) ==> opcnt[48] == 1
+//@   ensures tuplearg: is(self, *List) && len(args) == 1 && is(old(args[0]), Tuple) ==> err == nil
 
 //@ func (*List).Append(l, item)
 //@   modifies l.Items, mem(l.Items)
